@@ -41,14 +41,17 @@ def case(cid, rng, name, kk, re, mix8):
     pcovfam = "PCov" in name
     ni = int(rng.integers(3, 7))            # number of items (3 items with k = 2: the dense eigen-solver branch k >= items - 1)
     nr = int(rng.integers(ni, 8))            # other dimension (>= items so that rank exceeds the selections)
+    wide = name == "fPCovCUR" and ni >= 4 and rng.random() < 0.35
+    if wide:
+        nr = int(rng.integers(3, ni))        # fewer samples than features: the modified covariance is rank deficient from the start
     for _ in range(100):
         A = rng.integers(-3, 4, size=(nr, ni))
-        if np.linalg.matrix_rank(A) == ni:
+        if np.linalg.matrix_rank(A) == min(nr, ni):
             break
     X = (A if axis == 1 else A.T).astype(float)
     n_samples = X.shape[0]
     yv = rng.integers(-3, 4, size=n_samples).astype(float) if pcovfam else None
-    nsel = int(rng.integers(2, min(4, ni - 1) + 1))
+    nsel = int(rng.integers(2, min(4, min(ni, nr) - 1) + 1))        # the rank exceeds the number of selections
     if not pcovfam:
         kk = min(kk, min(nr, ni) - 1)        # plain CUR uses a truncated SVD that needs k < min(shape) (scipy's svds)
     kw = {"k": kk, "recompute_every": re}
